@@ -203,3 +203,21 @@ Lemma sweep256 (P : N -> bool) : forallb P (n_range 0 256) = true -> forall x, x
 Proof.
   intros H x Hx. rewrite forallb_forall in H. apply H. apply n_range_in; lia.
 Qed.
+
+Lemma sweep_range (P : N -> bool) lo n :
+  forallb P (n_range lo n) = true -> forall x, lo <= x -> x < lo + N.of_nat n -> P x = true.
+Proof.
+  intros H x H1 H2. rewrite forallb_forall in H. apply H. apply n_range_in; assumption.
+Qed.
+
+(* explicit small powers, for normalising goals *)
+Lemma pow256_nat_1 : 256 ^ N.of_nat 1 = 256. Proof. reflexivity. Qed.
+Lemma pow256_nat_0 : 256 ^ N.of_nat 0 = 1. Proof. reflexivity. Qed.
+
+Lemma be_bytes_1 v : v < 256 -> be_bytes 1 v = [v].
+Proof.
+  intros H. cbn [be_bytes]. rewrite pow256_nat_0, N.div_1_r, N.mod_small by exact H. reflexivity.
+Qed.
+
+Lemma be_bytes_2 v : be_bytes 2 v = [(v / 256) mod 256; v mod 256].
+Proof. cbn [be_bytes]. rewrite pow256_nat_1, pow256_nat_0, N.div_1_r. reflexivity. Qed.
